@@ -113,6 +113,10 @@ fn base_cfg(case: &Case, path: &str) -> crate::seq::EngineCfg {
 
 /// One re-execution with a given plan. `steps` is explicit.
 fn one(case: &Case, steps: Vec<Step>, commit: u32, plan: Vec<Fault>, expect: Option<bool>) -> Verdict {
+    one_more(case, steps, commit, plan, expect, Vec::new())
+}
+
+fn one_more(case: &Case, steps: Vec<Step>, commit: u32, plan: Vec<Fault>, expect: Option<bool>, more: Vec<(u32, Vec<Fault>)>) -> Verdict {
     let case = case.clone();
     let dir = props::fresh_dir("fault");
     let dir2 = dir.clone();
@@ -121,6 +125,7 @@ fn one(case: &Case, steps: Vec<Step>, commit: u32, plan: Vec<Fault>, expect: Opt
         let arena = Bump::new();
         let mut ecfg = base_cfg(&case, &path);
         ecfg.fault = Some((commit, plan, expect));
+        ecfg.more_faults = more;
         let eng = Engine::new(ecfg, Source::List(steps.into_iter().collect()), &arena);
         let out = eng.run();
         let mut v = Verdict {
@@ -151,29 +156,37 @@ fn one(case: &Case, steps: Vec<Step>, commit: u32, plan: Vec<Fault>, expect: Opt
 }
 
 fn plan_json(commit: u32, plan: &[Fault], expect: Option<bool>) -> Value {
+    plan_json_more(commit, plan, expect, &[])
+}
+
+fn plan_json_more(commit: u32, plan: &[Fault], expect: Option<bool>, more: &[(u32, Vec<Fault>)]) -> Value {
     json!({"fault": {
         "commit": commit,
         "expect_ok": expect,
         "plan": plan.iter().map(|f| json!({"nth": f.nth, "action": action_json(&f.action)})).collect::<Vec<_>>(),
+        "then": more.iter().map(|(c, p)| json!({"commit": c, "plan": p.iter().map(|f| json!({"nth": f.nth, "action": action_json(&f.action)})).collect::<Vec<_>>()})).collect::<Vec<_>>(),
     }})
+}
+
+fn parse_plan(a: Option<&Value>) -> Vec<Fault> {
+    a.and_then(|p| p.as_array())
+        .map(|a| a.iter().filter_map(|x| Some(Fault { nth: x.get("nth")?.as_u64()?, action: action_from(x.get("action")?)? })).collect())
+        .unwrap_or_default()
 }
 
 fn run_single(case: &Case) -> Verdict {
     let f = &case.extra["fault"];
     let commit = f.get("commit").and_then(|x| x.as_u64()).unwrap_or(1) as u32;
     let expect = f.get("expect_ok").and_then(|x| x.as_bool());
-    let plan: Vec<Fault> = f
-        .get("plan")
-        .and_then(|p| p.as_array())
-        .map(|a| {
-            a.iter()
-                .filter_map(|x| Some(Fault { nth: x.get("nth")?.as_u64()?, action: action_from(x.get("action")?)? }))
-                .collect()
-        })
-        .unwrap_or_default();
+    let plan: Vec<Fault> = parse_plan(f.get("plan"));
     let steps = case.steps.clone().unwrap_or_default();
-    let mut v = one(case, steps, commit, plan.clone(), expect);
-    v.extra_out = plan_json(commit, &plan, expect);
+    let more: Vec<(u32, Vec<Fault>)> = f
+        .get("then")
+        .and_then(|t| t.as_array())
+        .map(|a| a.iter().map(|x| (x.get("commit").and_then(|c| c.as_u64()).unwrap_or(0) as u32, parse_plan(x.get("plan")))).collect())
+        .unwrap_or_default();
+    let mut v = one_more(case, steps, commit, plan.clone(), expect, more.clone());
+    v.extra_out = plan_json_more(commit, &plan, expect, &more);
     v
 }
 
@@ -302,6 +315,41 @@ fn explore(case: &Case) -> Verdict {
                 out.stats = base.stats.clone();
                 return out;
             }
+        }
+    }
+    // sampled pairs across adjacent commits: commit n fails, commit n+1 is hit as well
+    let n_adj = if thorough { 16 } else { 5 };
+    for _ in 0..n_adj {
+        if base.commits.len() < 2 {
+            break;
+        }
+        let i = r.below(base.commits.len() as u64 - 1) as usize;
+        let (a, b) = (&base.commits[i], &base.commits[i + 1]);
+        if a.calls.is_empty() || b.calls.is_empty() {
+            continue;
+        }
+        let ia = r.below(a.calls.len() as u64) as usize;
+        let ib = r.below(b.calls.len() as u64) as usize;
+        let ka: Vec<(Action, Option<bool>)> = kinds_for(a.calls[ia], &mut r).into_iter().filter(|k| k.1 == Some(false)).collect();
+        let kb = kinds_for(b.calls[ib], &mut r);
+        if ka.is_empty() || kb.is_empty() {
+            continue;
+        }
+        let fa = r.pick(&ka).clone();
+        let fb = r.pick(&kb).clone();
+        let plan = vec![Fault { nth: ia as u64, action: fa.0 }];
+        let more = vec![(b.n, vec![Fault { nth: ib as u64, action: fb.0 }])];
+        let v1 = one_more(case, steps.clone(), a.n, plan.clone(), fa.1, more.clone());
+        total += 1;
+        *counters.entry("adjacent_commit_pairs".into()).or_default() += 1;
+        merge(&v1, &mut counters);
+        if v1.harness_error.is_some() || v1.violation.is_some() {
+            let mut out = v1;
+            out.issued = steps.clone();
+            out.extra_out = plan_json_more(a.n, &plan, fa.1, &more);
+            out.counters = counters;
+            out.stats = base.stats.clone();
+            return out;
         }
     }
     counters.insert("fault_runs".into(), total);
